@@ -99,7 +99,7 @@ func (w *World) queryReach() *Reach {
 }
 
 func checkC19(w *World, r *Report) {
-	r.Explanation = "Structural clause of C19: (Q-1) from Query (call graph, including go-ethereum's callbacks into the scratch StateDBWrapper) no overlay method other than tree reads is called on a live ledger, no durable-write API of tm-db/iavl/go-ethereum is reachable, no in-memory controller state is written (only the receiver of the scratch wrapper), and the scratch wrapper is built from ImmutableStateAt with the immutable account handler; (Q-2) every ledger read in a query handler is a tree read (Read / IterateReadAllItems) on the value returned by ImmutableLedgerAt(h) with h data-dependent on the request height, and vm_call's state comes from ImmutableStateAt(h) likewise; (Q-3) RigoApp.Query maps height 0 to the last committed height and its dispatch lists exactly the paths the controllers handle; (Q-4) no version of any tree is ever deleted or overwritten anywhere in the module. (Q-5) every historical read is served from a tree object of its own (a fresh iavl tree on the ledger's database, loaded at exactly the requested version, a load error is returned) under a fresh empty overlay — an iavl tree object remembers what was the latest version when it was opened, so it must not be shared between requests (C18 L-3). (Q-6) no function reachable from Query reads a controller field that block execution writes (candidate lists, validator sets, counters, the executing block context …): answers come from the immutable ledgers at the requested height, not from the in-memory state of the block that happens to be executing; the one listed exception is the last committed block context that supplies the default height. (Q-7) what a block committed is what the controllers made of the store's answers: a sentinel error that callers recognise by identity is handed back as itself (C18 L-5)."
+	r.Explanation = "Structural clause of C19: (Q-1) from Query (call graph, including go-ethereum's callbacks into the scratch StateDBWrapper) no overlay method other than tree reads is called on a live ledger, no durable-write API of tm-db/iavl/go-ethereum is reachable, no in-memory controller state is written (only the receiver of the scratch wrapper), and the scratch wrapper is built from ImmutableStateAt with the immutable account handler; (Q-2) every ledger read in a query handler is a tree read (Read / IterateReadAllItems) on the value returned by ImmutableLedgerAt(h) with h data-dependent on the request height, and vm_call's state comes from ImmutableStateAt(h) likewise; (Q-3) RigoApp.Query maps height 0 to the last committed height and its dispatch lists exactly the paths the controllers handle; (Q-4) no version of any tree is ever deleted or overwritten anywhere in the module. (Q-5) every historical read is served from a tree object of its own (a fresh iavl tree on the ledger's database, loaded at exactly the requested version, a load error is returned) under a fresh empty overlay — an iavl tree object remembers what was the latest version when it was opened, so it must not be shared between requests (C18 L-3). (Q-6) no function reachable from Query reads a controller field that block execution writes (candidate lists, validator sets, counters, the executing block context …): answers come from the immutable ledgers at the requested height, not from the in-memory state of the block that happens to be executing; the one listed exception is the last committed block context that supplies the default height. (Q-7) what a block committed is what the controllers made of the store's answers: a sentinel error that callers recognise by identity is handed back as itself (C18 L-5). (Q-8) the stake controller's `stakes` query collects its answer by one scan over all delegatee records of the requested height and by nothing else."
 	r.NotCovered = "the returned bytes; races with a running block (Query takes no application mutex); `stakes/voting_power` answers with the current governance limits (not in the property's list); tendermint's rpc core used by vm_call for the block time."
 
 	reach := w.queryReach()
@@ -136,6 +136,45 @@ func checkC19(w *World, r *Report) {
 	// answer the controllers misread (a wrapped not-found sentinel) changes that (C18 L-5)
 	if r.importObs(w, func(t *Report) { l5(w, t) }, "L-5", "Q-7") == 0 {
 		r.Undecided("Q-7", "sentinel-identity", "no sentinel comparison analysed")
+	}
+	// Q-8: the list queries of the stake controller answer from the whole committed
+	// set: stakes are stored in the record of the delegatee they point to but are
+	// asked for by owner, so "the stakes of X at height h" needs every delegatee
+	// record of h; a shortcut through one record leaves committed stakes out
+	if q := w.Method(pkgStake, "StakeCtrler", "Query"); q != nil {
+		bad, nOK := w.fullScanOnEveryAnswer(q, "stakes", func(mc *ssa.MakeClosure, cl *ssa.Function) (ssa.Value, bool) {
+			// the callback collects (by append) into one list of the handler
+			var acc ssa.Value
+			n := 0
+			for _, b := range cl.Blocks {
+				for _, in := range b.Instrs {
+					st, isS := in.(*ssa.Store)
+					if !isS {
+						continue
+					}
+					fv, isFV := st.Addr.(*ssa.FreeVar)
+					if !isFV {
+						continue
+					}
+					if !strings.HasPrefix(w.Canon(st.Val), "append("+w.Canon(fv)+", ") {
+						return nil, false
+					}
+					n++
+					for i, f := range cl.FreeVars {
+						if f == fv && i < len(mc.Bindings) {
+							if acc != nil && acc != mc.Bindings[i] {
+								return nil, false
+							}
+							acc = mc.Bindings[i]
+						}
+					}
+				}
+			}
+			return acc, n > 0 && acc != nil
+		})
+		r.Check(bad == "" && nOK > 0, "Q-8", "stake.Query:stakes:whole-set", "every successful answer to `stakes` is collected by one scan over all delegatee records of the requested height, and by nothing else", "the `stakes` query does not answer from all delegatee records of the requested height (stakes committed at that height can be missing from the answer): "+bad, fnSite(w, q))
+	} else {
+		r.Undecided("Q-8", "stake.Query", "StakeCtrler.Query not found")
 	}
 	r.Floor("Q-1", 12, "ledger calls / scratch-wrapper writes on the query path")
 	r.Floor("Q-2", 12, "immutable-ledger reads in the query handlers")
